@@ -55,6 +55,13 @@ inductive Expr where
   | fail
   /-- inline Python whose value is a scalar constant (`None`, `True`, a number) -/
   | py (c : PyConst)
+  /-- `Apply(e, `lambda x: (tag…, x)`)`: how `OperatorTable.create` marks the operators of a row
+      with `(precedence, associativity id)` (prefix/infix rows) or `(precedence)` (postfix rows) -/
+  | tagged (e : Expr) (tag : List Int)
+  /-- `operand between { rows }` after `OperatorTable.create`: tagged prefix rows, the operand
+      followed by the mixfix rows, tagged postfix rows, tagged infix rows (several rows of one
+      kind are combined by `Longest`) -/
+  | optable (pre : List Expr) (operand : Expr) (mixfix : List Expr) (post inf : List Expr)
   deriving Inhabited
 
 /-- The classes of `min_len` values that `List.always_succeeds` / `List._compile` distinguish. -/
@@ -88,6 +95,8 @@ structure FlagTable where
   backtrack : Flags
   fail : Flags
   py : Flags
+  apply : Flags → Flags → Flags
+  optable : Bool → Flags → Flags           -- arguments: has prefix rows, flags of the operands
 
 mutual
 def flagsOf (F : FlagTable) : Expr → Flags
@@ -109,6 +118,12 @@ def flagsOf (F : FlagTable) : Expr → Flags
   | .backtrack _ => F.backtrack
   | .fail => F.fail
   | .py _ => F.py
+  | .tagged e _ => F.apply (flagsOf F e) F.py
+  | .optable pre operand mixfix _ _ =>
+    F.optable (!pre.isEmpty)
+      (match mixfix with
+       | [] => flagsOf F operand
+       | _ => F.longest ((flagsOf F operand).as || anyAs F mixfix) ((flagsOf F operand).cps || anyCps F mixfix))
 def anyAs (F : FlagTable) : List Expr → Bool
   | [] => false
   | x :: xs => (flagsOf F x).as || anyAs F xs
@@ -119,6 +134,12 @@ def allAs (F : FlagTable) : List Expr → Bool
   | [] => true
   | x :: xs => (flagsOf F x).as && allAs F xs
 end
+
+/-- `combine` of `OperatorTable.create`: nothing, the single row, or `Longest` of the rows -/
+def combineRows : List Expr → Option Expr
+  | [] => none
+  | [x] => some x
+  | xs => some (.longest xs)
 
 def Expr.isFail : Expr → Bool
   | .fail => true
